@@ -808,6 +808,7 @@ def judge(sc, R, gain_rng=None):
         pow2_gain_checks(sc, R, 'mt-analyzer', bad)
         mt_reuse_checks(sc, bad)
         mt_getter_history(sc, bad)
+        inplace_reuse_checks(sc, bad)
         if np.abs(d - 1).max() > 1e-9:
             if np.all(d == 0):      # the recorded defect: the diagonal is never filled
                 bad('mt-analyzer/self-coherence/zero-diagonal', 'MTCoherenceAnalyzer.coherence[i,i] = 0, not 1', 'mta')
@@ -931,6 +932,7 @@ def judge(sc, R, gain_rng=None):
     # analyzer reuse / repeated calls / in-place overwrite / memory layouts / getter histories / cache path
     reuse_checks(sc, bad)
     getter_history_checks(sc, bad)
+    inplace_reuse_checks(sc, bad)
     if sc['kind'] == 'welch':
         cache_path_checks(sc, R, bad)
     mk_ = (lambda: method_of(sc)) if sc['kind'] == 'welch' else (lambda: csd_method_of(sc))
@@ -1303,6 +1305,122 @@ def mt_reuse_checks(sc, bad):
         for a in names:
             if not same(got[a], fresh[a]):
                 bad('mt-analyzer/reuse/%s/stale-%s' % (order, a), 'MTCoherenceAnalyzer re-targeted with set_input: .%s differs from a fresh analyzer on the new data' % a, 'mta')
+
+
+REUSE_VARIANTS = ('gains', 'flip', 'noise')
+REUSE_MODES = ('reset', 'set_input', 'set_input-new')
+
+
+def reuse_change(X, variant, hseed):
+    """the in-place change of the held input: (new samples, per-channel signs or None when the change is not a pure gain)"""
+    import random
+    r = random.Random('reuse/%s/%d' % (variant, hseed))
+    nch, n = X.shape
+    if variant == 'gains':          # every channel times its own non-zero constant: both signs, powers of two, lopsided
+        g = np.array([r.choice([-2.5, 3.0, 0.4, -7.0, 2.0 ** 10, -2.0 ** -8, 0.5, -4.0, 1e3, -1e-3]) for _ in range(nch)])
+        if np.all(g == g[0]):
+            g[r.randrange(nch)] = -7.0 if g[0] != -7.0 else 3.0
+        return X * g[:, None], np.sign(g)
+    if variant == 'flip':           # one channel times -1
+        g = np.ones(nch)
+        g[r.randrange(nch)] = -1.0
+        return X * g[:, None], g
+    Y = X.copy()                    # one channel replaced by new noise of the same size
+    m = r.randrange(nch)
+    Y[m] = np_rng(PID, hseed, 'reuse-noise').randn(n) * (np.std(X[m]) or 1.0) + np.mean(X[m])
+    return Y, None
+
+
+def inplace_reuse(pre, make, getters, X, Fs, hseed, bad, obs, square=True, variants=REUSE_VARIANTS, modes=REUSE_MODES, anti=True):
+    """ONE analyzer object: read every result attribute, change the data of the input it holds IN PLACE (per-channel gains /
+    sign flip of one channel / one channel replaced by new noise), then the documented invalidation — reset(), set_input(the same
+    object), set_input(a new object with equal data) — and read every attribute again.  Judged by C08's own oracle (bounds, diagonal 1,
+    symmetry, |coherency|^2 = coherence), by gain invariance where the change was a pure gain, and against a FRESH analyzer of the
+    same class / options built on a copy of the current data.  make(Y) -> analyzer holding a TimeSeries whose .data is Y's copy"""
+    import nitime.timeseries as ts
+    X = np.array(X, dtype=float)
+    for variant in variants:
+        Y, signs = reuse_change(X, variant, hseed)
+        fresh = {}
+        for g in getters:
+            fresh[g] = run(lambda: snap(getattr(make(Y.copy()), g)))
+        if all(isinstance(v, str) for v in fresh.values()):
+            continue
+        for mode in modes:
+            if mode == 'set_input-new' and variant != REUSE_VARIANTS[hseed % 3]:      # (the cheap extra: one variant per scenario)
+                continue
+            key = 'reuse/%s/%s/%s' % (pre, variant, mode)
+
+            def go():
+                C = make(X.copy())
+                if not hasattr(C, 'reset' if mode == 'reset' else 'set_input'):
+                    return None
+                before = {g: run(lambda: snap(getattr(C, g))) for g in getters}
+                T = C.input
+                T.data[...] = Y                              # same TimeSeries object, same ndarray, new samples
+                if mode == 'reset':
+                    C.reset()
+                elif mode == 'set_input':
+                    C.set_input(T)
+                else:
+                    C.set_input(ts.TimeSeries(np.array(T.data, copy=True), sampling_rate=Fs))
+                return before, {g: run(lambda: snap(getattr(C, g))) for g in getters}
+            res = run(go)
+            if res is None:
+                continue
+            if isinstance(res, str):
+                bad(key + '/raises', '%s: reading, changing the held input in place (%s) and %s raised %s' % (pre, variant, mode, res), obs)
+                continue
+            before, after = res
+            how = '%s after its input was changed in place (%s) and %s' % (pre, variant, 'reset()' if mode == 'reset' else mode + '(...)')
+            for g in getters:
+                if isinstance(fresh[g], str):
+                    continue
+                if isinstance(after[g], str):
+                    bad('%s/%s/raises' % (key, g), '%s: .%s raised %s (a fresh analyzer on the same data does not)' % (how, g, after[g]), obs)
+                elif not same_deep(after[g], fresh[g], 1e-9):
+                    bad('%s/%s/differs-from-fresh' % (key, g), '%s: .%s differs from a fresh analyzer on the current data (%s)'
+                        % (how, g, maxdiff(after[g], fresh[g]) if isinstance(after[g], np.ndarray) else 'structure'), obs)
+            vals = {g: np.asarray(v) for g, v in after.items() if g in (('coherence', 'coherency', 'phase', 'delay') if anti else ('coherence', 'coherency')) and not isinstance(v, (str, dict))}
+            judge_values(key, vals, bad, obs, square)
+            if signs is not None:
+                sgn = (signs[:, None] * signs[None, :])[:, :, None]
+                for g, mult in (('coherence', None), ('coherency', sgn)):
+                    b, a = before.get(g), after.get(g)
+                    if not isinstance(b, np.ndarray) or not isinstance(a, np.ndarray) or b.shape != a.shape:
+                        continue
+                    b = b * mult if (mult is not None and b.ndim == 3 and b.shape[:2] == mult.shape[:2]) else (b if mult is None else None)
+                    if b is None:
+                        continue
+                    m = np.isfinite(a) & np.isfinite(b)
+                    if m.any() and np.abs(a[m] - b[m]).max() > 1e-7:
+                        bad('%s/%s/changed-under-gain' % (key, g), '%s: .%s changed by %.3g although every channel was only multiplied by a non-zero constant'
+                            % (how, g, np.abs(a[m] - b[m]).max()), obs)
+
+
+def inplace_reuse_checks(sc, bad):
+    """`inplace_reuse` for every coherence-family analyzer a scenario exercises (SeedCoherenceAnalyzer has neither reset() nor set_input)"""
+    import nitime.timeseries as ts
+    from nitime.analysis import CoherenceAnalyzer, SparseCoherenceAnalyzer
+    X = np.array(sc['data'], dtype=float)
+    nch, n = X.shape
+    Fs = sc['Fs']
+    hseed = sc.get('hseed', 0)
+    if sc['kind'] == 'mta':
+        inplace_reuse('mt-analyzer/%s' % ('adaptive' if sc['adaptive'] else 'fixed'), lambda Y: mt_make(sc, Y), GETTERS['mt-analyzer'], X, Fs, hseed, bad, 'mta')
+        return
+    pre = sc['kind'] if sc['kind'] == 'welch' else sc['method']
+    getters = [g for g in GETTERS['analyzer'] if g != 'coherence_partial' or nch >= 3]
+    if not (sc['kind'] == 'welch' and sc['nov'] is None and sc['NFFT'] <= 32 and n < sc['NFFT'] + 32):
+        inplace_reuse(pre + '/analyzer/explicit-method', lambda Y: CoherenceAnalyzer(ts.TimeSeries(Y, sampling_rate=Fs), method=explicit_method(sc)),
+                      getters, X, Fs, hseed, bad, 'an')
+    if sc['kind'] == 'welch':
+        inplace_reuse('welch/analyzer/default-method', lambda Y: CoherenceAnalyzer(ts.TimeSeries(Y, sampling_rate=Fs)), getters, X, Fs, hseed, bad, 'an',
+                      variants=(REUSE_VARIANTS[hseed % 3],))
+        if sc['NFFT'] <= n:
+            ij = [(i, j) for i in range(nch) for j in range(nch)]
+            inplace_reuse('welch/sparse-analyzer', lambda Y: SparseCoherenceAnalyzer(ts.TimeSeries(Y, sampling_rate=Fs), ij=ij, method=method_of(sc)),
+                          GETTERS['sparse-analyzer'], X, Fs, hseed, bad, 'an', anti=False)     # delay = angle/(2 pi f): arg = pi at real negative bins (Nyquist) is excluded from antisymmetry
 
 
 def identity_checks(pre, X, calls, mk, bad, obs='coherency'):
